@@ -1,2 +1,31 @@
-(* C18 placeholder *)
-From Rdest Require Import Base Url.
+(* C18 — the tracker announce names the right torrent and client. *)
+From Coq Require Import String.
+From Rdest Require Import Base BCodec Consts Url UrlProofs.
+Open Scope N_scope.
+
+(* the info_hash parameter percent-decodes to exactly the hash, for every byte value (NUL, '&', '%', '+', non-UTF-8) *)
+Theorem C18_hash_roundtrip : forall bs, Forall (fun b => b < 256) bs -> form_decode (byte_serialize bs) = bs.
+Proof. exact decode_serialize. Qed.
+
+(* and its encoding contains no '&', '=', '?' or '#', so it cannot be cut short or merged with another parameter *)
+Theorem C18_hash_safe : forall bs, Forall (fun b => b < 256) bs ->
+  forallb (fun c => negb (c =? ch_amp) && negb (c =? ch_eq) && negb (c =? ch_q) && negb (c =? 35)) (byte_serialize bs) = true.
+Proof. exact serialize_safe. Qed.
+
+(* create_url keeps the announce URL as a prefix and appends exactly one separator: '&' when a query exists *)
+Theorem C18_url_shape : forall announce hash,
+  create_url announce hash = announce ++ [if existsb (N.eqb ch_q) announce then ch_amp else ch_q] ++ s_info_hash ++ [ch_eq] ++ byte_serialize hash.
+Proof. reflexivity. Qed.
+
+(* the statement about the whole request (path and original parameters kept; peer_id, port, left present) is
+   decided on the request line the real client sends, by Corr/C18.v's oracle; no general Coq theorem over all
+   announce URLs yet *)
+Example C18_nonvacuous :
+  let target := request_target (hx "687474703a2f2f683a312f613f6b3d76") [0; 38; 37; 43; 255] (hx "4141414141414141414141414141414141414141") 7 in
+  let ps := query_pairs (snd (path_query target)) in
+  lookup s_info_hash ps = Some [0; 38; 37; 43; 255] /\ lookup (hx "6b") ps = Some (hx "76") /\ lookup s_left ps = Some [55].
+Proof. vm_compute. repeat split. Qed.
+
+Print Assumptions C18_hash_roundtrip.
+Print Assumptions C18_hash_safe.
+Print Assumptions C18_url_shape.
